@@ -87,3 +87,16 @@ Proof.
   rewrite Rplus_0_l, sin_0, cos_0, sin_PI2.
   repeat split; try lra; nra.
 Qed.
+
+(** ** closure under the wrist flip, at the level of the kernel's answers: with every answer (built from table angles t1..t6) the
+    answer built from the flipped angles (t4 +- PI, -t5, t6 -+ PI) is returned as well; both reach the same pose exactly *)
+From VF Require Import Proofs.TwinK.
+Theorem C02_kernel_twin_closed : forall (p : Params), sg_ok6 p -> forall (compare : Iso -> Iso -> bool) pose s,
+  In s (the_kernel p compare (ik_theta_def p) pose) ->
+  exists t1 t2 t3 t4 t5 t6, s = cand p t1 t2 t3 t4 t5 t6 /\
+    (In (cand p t1 t2 t3 (t4 + PI) (- t5) (t6 - PI)) (the_kernel p compare (ik_theta_def p) pose) \/
+     In (cand p t1 t2 t3 (t4 - PI) (- t5) (t6 + PI)) (the_kernel p compare (ik_theta_def p) pose)).
+Proof. exact kernel_twin_closed. Qed.
+Theorem C02_candidate_fk : forall (p : Params), sg_ok6 p -> forall t1 t2 t3 t4 t5 t6,
+  fwd p (j6_of (cand p t1 t2 t3 t4 t5 t6)) = L6 p (mkJ6 t1 t2 t3 t4 t5 t6).
+Proof. exact fwd_cand. Qed.
